@@ -43,6 +43,7 @@ const (
 	OpExtract
 	OpZext
 	OpSext
+	OpFP // IEEE-754 operation on bit patterns; the kind is in Hi (see fp.go)
 )
 
 var opNames = map[Op]string{
@@ -90,7 +91,7 @@ func (tt *TermTable) key(t *Term) string {
 		fmt.Fprintf(&sb, "%x", t.Val)
 	case OpVar:
 		sb.WriteString(t.Name)
-	case OpExtract:
+	case OpExtract, OpFP:
 		fmt.Fprintf(&sb, "%d,%d,", t.Hi, t.Lo)
 	}
 	for _, a := range t.Args {
@@ -1157,6 +1158,12 @@ func (m Model) Eval(t *Term, memo map[int]uint64) uint64 {
 		r = a(0)
 	case OpSext:
 		r = uint64(signExt(a(0), t.Args[0].W))
+	case OpFP:
+		vals := make([]uint64, len(t.Args))
+		for i := range t.Args {
+			vals[i] = a(i)
+		}
+		r = evalFP(t.Hi, t.W, t.Args[0].W, vals)
 	default:
 		panic("eval: unknown op")
 	}
@@ -1265,6 +1272,8 @@ func (p *SMTPrinter) emit(t *Term) {
 		e = fmt.Sprintf("((_ zero_extend %d) %s)", t.W-t.Args[0].W, args[0])
 	case OpSext:
 		e = fmt.Sprintf("((_ sign_extend %d) %s)", t.W-t.Args[0].W, args[0])
+	case OpFP:
+		e = smtFP(t, args)
 	default:
 		e = "(" + opNames[t.Op] + " " + strings.Join(args, " ") + ")"
 	}
@@ -1303,6 +1312,9 @@ func TermString(t *Term, depth int) string {
 	}
 	if t.Op == OpZext || t.Op == OpSext {
 		return fmt.Sprintf("ext%d(%s)", t.W, as[0])
+	}
+	if t.Op == OpFP {
+		return "(" + fpNames[t.Hi] + " " + strings.Join(as, " ") + ")"
 	}
 	return "(" + opNames[t.Op] + " " + strings.Join(as, " ") + ")"
 }
